@@ -6,7 +6,7 @@ import WebAuthnModel.Generated.TpmAndroid
 import WebAuthnModel.Model.KeyDesc
 import WebAuthnModel.Model.Tpm2
 import WebAuthnModel.Model.San
-import WebAuthnModel.Model.JwsVerify
+import WebAuthnModel.Model.X509Sig
 /-
   The seven attestation statement verification procedures (attestation_statement*.go, certificate.go).
   Dependencies (x509, asn1, go-tpm, go-jose, crypto) are oracles; everything the repository itself decides —
@@ -131,13 +131,17 @@ def certAAGUID (c : CertView) : Prog AaguidExt := do
     | none => pure .invalid
     | some b => if b.length = Generated.Core.aaguidSize then pure (.value b) else pure .invalid
 
+/-- `certificate.CheckSignature(alg.X509SignatureAlgorithm(), msg, sig)`: the table of Model/X509Sig.lean for the certificate's key kind -/
+def certCheckSig (der : Bytes) (c : CertView) (alg : Int) (msg sig : Bytes) : Prog Bool :=
+  X509Sig.checkSignature der c.key (Cose.algX509 alg) msg sig
+
 def verifyPackedCert (o : AttObj) (cdHash : Bytes) (der : Bytes) (c : CertView) : Prog Bool := do
   match attestedAuthData o with
   | none => pure false
   | some (_, acd) =>
     let alg := getAlgorithm o.stmt
     let sig := getSignature o.stmt
-    if !(← askBool (.x509CheckSig der (Cose.algX509 alg) (o.authData ++ cdHash) sig)) then pure false
+    if !(← certCheckSig der c alg (o.authData ++ cdHash) sig) then pure false
     else if c.version ≠ 3 then pure false
     else if c.country = [] then pure false
     else if c.org = [] then pure false
@@ -190,7 +194,7 @@ def verifyU2F (o : AttObj) (cdHash : Bytes) : Prog (Option Result) := do
         | some (.ec2 alg crv x y) =>
           let msg := u2fMessage d.rpIdHash cdHash acd.credentialId x y
           let _ := crv
-          if ← askBool (.x509CheckSig der (Cose.algX509 alg) msg (getSignature o.stmt)) then
+          if ← certCheckSig der c alg msg (getSignature o.stmt) then
             pure (some ⟨"Unknown", [der]⟩)
           else pure none
         | _ => pure none
@@ -207,7 +211,7 @@ def verifyAndroidKey (o : AttObj) (cdHash : Bytes) : Prog (Option Result) := do
       match credentialKey acd with
       | none => pure none
       | some k =>
-        if !(← askBool (.x509CheckSig der (Cose.algX509 (getAlgorithm o.stmt)) (o.authData ++ cdHash) (getSignature o.stmt))) then pure none
+        if !(← certCheckSig der c (getAlgorithm o.stmt) (o.authData ++ cdHash) (getSignature o.stmt)) then pure none
         else if !keysEqual c.key k.material then pure none
         else match findExt c Generated.Core.oidAndroidKey with
           | none => pure none
@@ -310,7 +314,7 @@ def verifyTPM (o : AttObj) (cdHash : Bytes) : Prog (Option Result) := do
             match certs with
             | [] => pure none
             | (der, c) :: rest =>
-              if !(← askBool (.x509CheckSig der (Cose.algX509 alg) ciEnc (getSignature o.stmt))) then pure none
+              if !(← certCheckSig der c alg ciEnc (getSignature o.stmt)) then pure none
               else if c.version ≠ 3 then pure none
               else if !hardwareDetailsOK c then pure none
               else if !c.unknownEKUs.contains Generated.Core.oidAIKCertificate then pure none
